@@ -3,7 +3,7 @@
    followed by Unicode scalar values; rationals as numerator, denominator. *)
 From Coq Require Import List NArith ZArith QArith Qcanon Bool.
 From ACB Require Import Base.Outcome Base.QcExtra Base.Fit Base.Arith
-     Model.QText Model.Pages Model.Fmv Spec.FmvTable.
+     Model.QText Model.Pages Model.Fmv Spec.FmvTable Model.FxTracker Model.Questrade.
 Import ListNotations.
 Local Open Scope Z_scope.
 
@@ -59,6 +59,44 @@ Definition ores {T} (f : T -> list Z) (r : res T) : list Z :=
   | Rej e => [1; orej e]
   | Panic p => [2; opanic p]
   end.
+
+(* ===== C18 ===== *)
+Definition pcell : P cell :=
+  tag <~ pZ ;;
+  match tag with
+  | 0 => pret CEmpty
+  | 1 => s <~ ptext ;; pret (CStr s)
+  | 2 => z <~ pZ ;; pret (CInt z)
+  | 3 => d <~ popt pQ ;; disp <~ ptext ;; pret (CFloat d disp)
+  | _ => b <~ pbool ;; pret (CBool b)
+  end.
+
+(* filters are literal substrings here (the theorems hold for any predicate) *)
+Definition popts : P opts :=
+  acc <~ popt ptext ;; sec <~ popt ptext ;; nofx <~ pbool ;; nosort <~ pbool ;; rate <~ popt pQ ;;
+  pret {| o_account := option_map (fun lit => contains lit) acc;
+          o_security := option_map (fun lit => contains lit) sec;
+          o_no_fx := nofx; o_no_sort := nosort; o_rate := rate |}.
+
+Definition odate (d : date3) : list Z := let '(y, m, dd) := d in [Z.of_N y; Z.of_N m; Z.of_N dd].
+Definition ooptQ (o : option Qc) : list Z := match o with Some q => 1 :: oQ q | None => [0] end.
+Definition obtx (t : btx) : list Z :=
+  otext (b_sec t) ++ odate (b_td t) ++ odate (b_sd t) ++ otext (b_tdt t) ++ otext (b_sdt t)
+  ++ [obool (b_buy t)] ++ oQ (b_price t) ++ oQ (b_shares t) ++ oQ (b_comm t) ++ otext (b_cur t)
+  ++ ooptQ (b_rate t) ++ [obool (b_reg t); Z.of_N (b_row t)]
+  ++ otext (ac_type (b_acct t)) ++ otext (ac_num (b_acct t))
+  ++ match b_tb t with Some x => [Z.of_N x] | None => [0] end.
+Definition oerrs (l : list (N * N)) : list Z := olist (fun e => [Z.of_N (fst e); Z.of_N (snd e)]) l.
+
+Definition run_qt : P (list Z) :=
+  a <~ pZ ;; pol <~ pZ ;; o <~ popts ;; sh <~ plist (plist pcell) ;;
+  pret (ores (fun r => match r with
+                       | RunFatal e => 0 :: oerrs e
+                       | RunAccounts => [1]
+                       | RunOut rows e => 2 :: olist obtx rows ++ oerrs e
+                       end)
+             (run (if a =? 0 then exact else dec)
+                  (if pol =? 0 then HeaderFiltered else HeaderEnumerated) o sh)).
 
 (* ===== C20 ===== *)
 Definition run_pages : P (list Z) :=
@@ -139,6 +177,7 @@ Definition dispatch (l : list Z) : list Z :=
   match l with
   | mode :: r =>
       let p := match mode with
+               | 10 => run_qt
                | 20 => run_pages
                | 21 => run_iter_case
                | 22 => run_regex
